@@ -138,6 +138,13 @@ theorem zipWith_or_map (f g : Rat → Bool) : ∀ d : List Rat,
 @[simp] theorem listGet_nil {α : Type} (k : Nat) : listGet ([] : List α) k = .error .indexError := rfl
 @[simp] theorem listGet_cons_zero {α : Type} (x : α) (xs : List α) : listGet (x :: xs) 0 = .ok x := rfl
 
+/-- used as a permutation rule: makes proofs insensitive to `a == b` vs `b == a` in the source -/
+theorem decide_eq_comm (a b : Nat) : decide (a = b) = decide (b = a) := by
+  by_cases h : a = b
+  · subst h; rfl
+  · have h' : ¬ b = a := fun e => h e.symm
+    simp [h, h']
+
 @[simp] theorem beq_nat (a b : Nat) : (a == b) = decide (a = b) := by
   by_cases h : a = b <;> simp [h]
 
